@@ -54,9 +54,13 @@ def nothrow(ctx, report, folder):
         if det is None:
             raise AnalysisError(f"{cls.name}: no detect method")
         report.covered(det)
-        problems, unknown = scan_nothrow(det, folder)
+        impure = []
+        problems, unknown = scan_nothrow(det, folder, ctx.index, impure=impure)
         n += 1
-        if unknown:
+        if impure:
+            report.violation("R-PURE", det, "detect answers from the text alone (no module-level state written, no object identity)",
+                             {"constructs": impure[:3]}, "1")
+        if unknown and not problems and not impure:
             raise AnalysisError(f"{det.qualname}: constructs outside the exception-freedom whitelist: {unknown[:3]}")
         report.check(not problems, "R-NOTHROW", det, "detect cannot raise on a non-empty string",
                      {"constructs_that_can_raise": problems} if problems else None, "2")
@@ -71,9 +75,25 @@ def nothrow(ctx, report, folder):
         raise AnalysisError(f"only {n} detect methods analysed (floor 6)")
 
 
-def scan_nothrow(fn, folder=None):
+# what a conversion of arbitrary text can raise
+RAISES = {"int": ("ValueError",), "float": ("ValueError",), "Fraction": ("ValueError", "ZeroDivisionError"),
+          "fractions.Fraction": ("ValueError", "ZeroDivisionError"), "Decimal": ("InvalidOperation",),
+          "decimal.Decimal": ("InvalidOperation",), "complex": ("ValueError",), "ord": ("TypeError",), "chr": ("ValueError",),
+          "json.loads": ("ValueError",), "bytes.fromhex": ("ValueError",), "ast.literal_eval": ("ValueError", "SyntaxError")}
+PARENTS = {"ZeroDivisionError": ("ArithmeticError",), "InvalidOperation": ("ArithmeticError",), "OverflowError": ("ArithmeticError",),
+           "IndexError": ("LookupError",), "KeyError": ("LookupError",), "UnicodeError": ("ValueError",),
+           "UnicodeDecodeError": ("UnicodeError", "ValueError"), "UnicodeEncodeError": ("UnicodeError", "ValueError")}
+
+
+def _caught(exc, anc):
+    names = {exc, "Exception", "BaseException", "*"} | set(PARENTS.get(exc, ()))
+    return any(kind == "try" and names & test for kind, test in anc)
+
+
+def scan_nothrow(fn, folder=None, index=None, _depth=0, impure=None):
     par = fn.params[1] if len(fn.params) > 1 else "content"
     problems, unknown = [], []
+    impure = impure if impure is not None else []
     line_lists = {}   # name -> 'splitlines' | 'split'
     for n in walk_no_nested(fn.node):
         if isinstance(n, ast.Assign) and len(n.targets) == 1 and isinstance(n.targets[0], ast.Name) \
@@ -118,11 +138,25 @@ def scan_nothrow(fn, folder=None):
         for kind, test in ancestors:
             if kind == "try-IndexError":
                 return True
-            if test is None:
+            if test is None or kind == "try":
                 continue
             if len_bound(test, name, kind != "ifnot") >= k + 1:
                 return True
         return False
+
+    def follow(call, anc):
+        """an in-package helper: what it can raise, it can raise here (unless caught here)"""
+        if index is None or _depth >= 2:
+            return False
+        from ..core.astutil import resolve_callee
+        callee = resolve_callee(index, fn, call)
+        if callee is None:
+            return False
+        p2, u2 = scan_nothrow(callee, folder, index, _depth + 1, impure)
+        unknown.extend(f"{callee.qualname}: {u}" for u in u2)
+        if p2 and not any(kind == "try" and ({"Exception", "BaseException", "*"} & test) for kind, test in anc):
+            problems.extend(f"{callee.qualname}: {x}" for x in p2)
+        return True
 
     def visit_expr(e, anc):
         if isinstance(e, ast.BoolOp) and isinstance(e.op, ast.And):
@@ -161,6 +195,14 @@ def scan_nothrow(fn, folder=None):
                     return    # str.split always yields at least one piece (with a separator argument)
                 if k >= 0 and guarded(e, k, anc):
                     return
+                if isinstance(e.value, ast.Name) and index is not None:
+                    b_ = index.resolve(fn.module, e.value.id)
+                    vals = b_.target if b_ is not None and b_.kind == "const" else None
+                    if vals and all(isinstance(x_, (ast.Tuple, ast.List)) and len(x_.elts) > (k if k >= 0 else -k - 1)
+                                    or isinstance(x_, ast.Constant) and isinstance(x_.value, str) and len(x_.value) > (k if k >= 0 else -k - 1)
+                                    for x_ in vals):
+                        return    # a module-level constant sequence that is long enough
+
                 problems.append(f"{src(e)}: index {k} of a sequence whose length is not tested (IndexError)")
                 return
             problems.append(f"{src(e)}: subscript with a non-constant index")
@@ -188,18 +230,43 @@ def scan_nothrow(fn, folder=None):
                         except re.error as ex:
                             problems.append(f"{src(e)}: the pattern does not compile ({ex})")
                         return
-                if e.func.attr in ("group", "groups", "start", "end", "span"):
-                    problems.append(f"{src(e)}: attribute of a match object that may be None (AttributeError)")
+                if e.func.attr in ("group", "groups", "start", "end", "span", "groupdict"):
+                    recv = src(e.func.value)
+                    tested = False
+                    for kind, test in anc:
+                        if kind == "try" and ({"AttributeError", "Exception", "BaseException", "*"} & test):
+                            tested = True
+                        if kind in ("if", "and") and test is not None and kind != "try" and src(test) in (recv, f"{recv} is not None"):
+                            tested = True
+                        if kind == "ifnot" and src(test) in (f"{recv} is None", f"not {recv}"):
+                            tested = True
+                    if not tested:
+                        problems.append(f"{src(e)}: attribute of a match object that may be None (AttributeError)")
                     return
                 if e.func.attr in ("index",):
-                    problems.append(f"{src(e)}: str.index raises ValueError when absent")
+                    if not _caught("ValueError", anc):
+                        problems.append(f"{src(e)}: str.index raises ValueError when absent")
+                    return
+                if cn in RAISES:
+                    missing = [x for x in RAISES[cn] if not _caught(x, anc)]
+                    if missing:
+                        problems.append(f"{src(e)}: conversion of arbitrary text raises {' / '.join(missing)}, not caught here")
+                    return
+                if follow(e, anc):
                     return
                 unknown.append(src(e)[:80])
                 return
             if cn in SAFE_FUNCS:
                 return
-            if cn in ("int", "float"):
-                problems.append(f"{src(e)}: conversion raises ValueError on non-numeric text")
+            if cn in RAISES:
+                missing = [x for x in RAISES[cn] if not _caught(x, anc)]
+                if missing:
+                    problems.append(f"{src(e)}: conversion of arbitrary text raises {' / '.join(missing)}, not caught here")
+                return
+            if cn in ("id", "hash"):
+                impure.append(f"{fn.qualname}: {src(e)}: the identity / hash of an object is not a property of the text")
+                return
+            if follow(e, anc):
                 return
             unknown.append(src(e)[:80])
             return
@@ -242,6 +309,17 @@ def scan_nothrow(fn, folder=None):
                     if isinstance(t, (ast.Tuple, ast.List)):
                         v = st.value
                         fixed = isinstance(v, (ast.Tuple, ast.List)) and len(v.elts) == len(t.elts)
+                        if not fixed and isinstance(v, ast.Call) and isinstance(v.func, ast.Attribute) and v.func.attr == "groups" \
+                                and isinstance(v.func.value, ast.Name):
+                            # m.groups() of a pattern written in the function: as many values as the pattern has groups
+                            pats = [a_.value.args[0].value for a_ in walk_no_nested(fn.node) if isinstance(a_, ast.Assign)
+                                    and any(isinstance(t_, ast.Name) and t_.id == v.func.value.id for t_ in a_.targets)
+                                    and isinstance(a_.value, ast.Call) and a_.value.args and isinstance(a_.value.args[0], ast.Constant)
+                                    and isinstance(a_.value.args[0].value, str)]
+                            try:
+                                fixed = bool(pats) and all(re.compile(p_).groups == len(t.elts) for p_ in pats)
+                            except re.error:
+                                fixed = False
                         if not fixed:
                             problems.append(f"{short(st)}: unpacking {len(t.elts)} names from a sequence of "
                                             f"unknown length (ValueError)")
@@ -265,6 +343,7 @@ def scan_nothrow(fn, folder=None):
                         names.extend(re.findall(r"\w+", src(h.type)))
                 extra = [("try-IndexError", None)] if ("IndexError" in names or "Exception" in names or "*" in names
                                                         or "LookupError" in names) else []
+                extra.append(("try", set(names)))
                 visit_block(st.body, anc + extra)
                 for h in st.handlers:
                     visit_block(h.body, anc)
@@ -274,6 +353,8 @@ def scan_nothrow(fn, folder=None):
                 problems.append(f"{short(st)}: explicit raise")
             elif isinstance(st, ast.Pass):
                 pass
+            elif isinstance(st, (ast.Global, ast.Nonlocal)):
+                impure.append(f"{fn.qualname}: `{short(st)}`: module-level state is written: the answer depends on earlier calls")
             else:
                 unknown.append(f"{type(st).__name__}: {short(st)}")
     visit_block(fn.node.body, [])
